@@ -1,2 +1,9 @@
 import Heathcliff.Props.C07
-#print axioms HC.C07.placeholder
+#print axioms HC.C07.bitCount_le_iff
+#print axioms HC.C07.bitCount_mono
+#print axioms HC.C07.budget_eq
+#print axioms HC.C07.centred_neg
+#print axioms HC.C07.budget_negate
+#print axioms HC.C07.centred_add_le
+#print axioms HC.C07.budget_add_k
+#print axioms HC.C07.exact_below_threshold
